@@ -471,6 +471,26 @@ class C01:
                             ctx.bad("R01.3", wowner.module.relpath, f"{wowner.name}.{wmeth}", f"{O.name}({g}=[... if {show(c)[:60]}])",
                                     f"the elements written to {O.name}.{g} are filtered by `{show(c)[:70]}`: every element of the field must be "
                                     f"written (only `is not None` filters are lossless)", wret.lineno)
+        # list order: no keyword of a list-typed field may pass through sorted / reversed / set (either direction)
+        for side, kws, fmap, owner_, meth_, ret_ in (("writer", wk, Of, wowner, wmeth, wret), ("reader", rk, Df, rowner, rmeth, rret)):
+            for g, v in kws.items():
+                fi = fmap.get(g)
+                if fi is None or strip_opt(fi.shape)[0] != "list":
+                    continue
+                vv = v[2] if v[0] == "from_super" else v
+                bad_ = None
+                for x in walk(vv):
+                    if x[0] == "call" and x[1] in (("builtin", "sorted"), ("builtin", "reversed"), ("builtin", "set"), ("builtin", "frozenset")):
+                        bad_ = show(x[1])
+                    if x[0] == "comp" and x[1] == "set":
+                        bad_ = "set comprehension"
+                    if x[0] == "sub" and x[2][0] == "slice" and x[2][3] != NONE:
+                        bad_ = "stepped slice"
+                site_ = f"{owner_.module.relpath}:{ret_.lineno} {owner_.name}.{meth_}"
+                if bad_:
+                    ctx.bad("R01.2", owner_.module.relpath, f"{owner_.name}.{meth_}", f"{g}=... {bad_} ...",
+                            f"the {side} passes the list field {g!r} through {bad_}: list order (and duplicates) are part of the value and "
+                            f"must survive the round trip", ret_.lineno)
         # inline element classes
         self._check_inline(D, O, Df, wk, rk, ws, rs, wobj, robj, wowner, wmeth, wret, rowner, rmeth, rret)
 
